@@ -27,12 +27,27 @@ def c12_a64(a, b):
     want = S.a64_family(*a) == S.a64_family(*b)
     return got != want, f"is_reg_dependend_of({a},{b}) = {got}, architectural overlap = {want}"
 
+RAW = {}
+def raw(f):
+    RAW[f.__name__] = f
+    return f
+
 def main():
-    cex = json.loads(sys.argv[1])
     try:
         import replay.more  # noqa: registers further replays
     except ImportError:
         pass
+    if sys.argv[1] == "--batch":
+        out = []
+        for case in json.load(open(sys.argv[2])):
+            f = RAW.get(case["replay"])
+            try:
+                out.append(f(**case["args"]))
+            except Exception as e:
+                out.append({"__raises__": type(e).__name__})
+        print(json.dumps(out, default=str))
+        return
+    cex = json.loads(sys.argv[1])
     f = REPLAYS.get(cex["replay"])
     if f is None:
         print(json.dumps(dict(violates=None, detail="no replay function " + cex["replay"]))); return
